@@ -3,7 +3,7 @@ import ast
 
 from ..srcmodel import AnalysisError, site
 from ..automat_x import Program, output_call_names
-from ..astutil import dotted, const, NOCONST
+from ..astutil import dotted, const, NOCONST, is_self_attr
 from ..tablerules import colouring, row_calls
 from ..cfg import build
 from ..effects import class_writers, is_empty_ctor
@@ -227,6 +227,24 @@ def run(tree, rep, tier):
     # the server replays the whole mailbox after every re-open: only the dedup set stands between a reconnect and a repetition
     from .C02 import dedup_set_discipline
     dedup_set_discipline(tree, rep, "C09.R6")
+    # a message is remembered for re-submission BEFORE its transmission is attempted (Automat skips the outputs that follow one
+    # that raises: a send into a closing socket must not lose the message)
+    from ..automat_x import output_calls
+    M_ = prog.machine("Mailbox")
+    n_rows = 0
+    for r in M_.rows.values():
+        rec = [i for i, o in enumerate(r.outputs) if any(
+            isinstance(x, ast.Assign) and any(isinstance(t, ast.Subscript) and is_self_attr(t.value, "_pending_outbound") for t in x.targets)
+            for f in [M_.outputs[o]] for x in ast.walk(f))]
+        txa = [i for i, o in enumerate(r.outputs) if any(isinstance(c, ast.Call) and dotted(c.func) == "self._RC.tx_add" for c in output_calls(M_, o))]
+        if rec and txa:
+            n_rows += 1
+            rep.check("C09.R6", "Mailbox %s.%s records the message in _pending_outbound before it tries to transmit it" % (r.src, r.inp),
+                      max(rec) < min(txa), r.site, key="C09.R6:Mailbox[%s].%s:record-before-send" % (r.src, r.inp),
+                      what="Mailbox %s.%s transmits before it records: if tx_add raises (socket already closing) the message is never "
+                           "remembered and never re-submitted on the next connection" % (r.src, r.inp))
+    if n_rows == 0:
+        raise AnalysisError("Mailbox: no row both records and transmits a message")
     r4(tree, rep, tier)
 
 
